@@ -132,7 +132,25 @@ def run_impl(abi, case):
         "scratch": [r.name for r in regs.scratch_registers],
         "available": [r.name for r in regs.available_registers],
     }
-    declared = list(out["alloc"]["clobbered"])
+    # what the property says must come back: every register the patch declared clobbered, got as scratch, or
+    # asked to preserve as caller-saved - computed from the request, not from the allocation's own report
+    want = []
+    for r in case["clobbers"]:
+        try:
+            want.append(abi.get_register(r).name)
+        except KeyError:
+            pass
+    want += out["alloc"]["scratch"]
+    if case["preserve"]:
+        want += [r.name for r in abi.caller_saved_registers()]
+    declared = sorted(set(want) | set(out["alloc"]["clobbered"]))
+    reads = set()
+    for r in case["reads"]:
+        try:
+            reads.add(abi.get_register(r).name)
+        except KeyError:
+            pass
+    out["read_scratch"] = sorted(reads & set(out["alloc"]["scratch"]))
     try:
         pro, epi, adj = abi._create_prologue_and_epilogue(c, regs, case["leaf"])
         pro = list(pro)
@@ -268,6 +286,8 @@ def flush(ctx, pending):
             continue
         # scratch-register clauses, checked directly on the real allocation
         al = impl["alloc"]
+        if impl.get("read_scratch"):
+            ctx.violation("C16:scratch-is-a-read-register", "scratch registers %s are registers the patch reads (%s)" % (impl["read_scratch"], case["reads"]), case)
         if len(al["scratch"]) != case["scratch"] or len(set(al["scratch"])) != len(al["scratch"]):
             ctx.violation("C16:scratch-count", "asked %d scratch registers, got %s" % (case["scratch"], al["scratch"]), case)
         if "gen_err" in impl or "gen_err" in a:
